@@ -164,11 +164,16 @@ def compute_outlier_prob(outlier_prob, cluster_size):
 def load_pyclone_data(file_name):
     df = _create_raw_data_df(file_name)
 
+    zero_cn_mutations = df.loc[df["major_cn"] == 0, "mutation_id"].unique()
+
     df = _remove_cn_zero_mutations(df)
 
     samples = sorted(df["sample_id"].unique())
 
     df = _remove_duplicated_and_partially_absent_mutations(df, samples)
+
+    # A mutation with a zero copy number row is dropped entirely, even when a duplicate row made it look complete
+    df = df.loc[~df["mutation_id"].isin(zero_cn_mutations)]
 
     mutations = df["mutation_id"].unique()
 
